@@ -43,6 +43,7 @@ STUBS = {
     "tt_to_string": ("<crate::types::TokenType as alloc::string::ToString>::to_string", "crate::verif_k::stubs::tt_to_string"),
     "now": ("chrono::Utc::now", "crate::verif_k::stubs::now"),
     "regex_new": ("regex::Regex::new", "crate::verif_k::stubs::regex_new_err"),
+    "execute_text": ("crate::smartcalc::SmartCalc::execute_text", "crate::smartcalc::verif_k_local::stub_execute_text"),
 }
 
 STUB_TEXT = {
@@ -53,6 +54,7 @@ STUB_TEXT = {
     "tt_to_string": "<TokenType as ToString>::to_string -> exact for Text, empty otherwise (float->decimal formatting cut)",
     "now": "chrono::Utc::now -> arbitrary instant within years 1..9999 drawn by the harness",
     "regex_new": "regex::Regex::new -> Err (selects Session::set_text's own fallback line splitter)",
+    "execute_text": "SmartCalc::execute_text -> arbitrary per-line outcome (None / Err / Ok) inside the execute_session loop harnesses; per-line totality is decided by the stage harnesses",
 }
 
 
